@@ -6,6 +6,7 @@ TODO: Handle sys.argv
 """
 
 import sys
+import time
 import io
 import ast
 import types
@@ -574,9 +575,11 @@ class Sandbox:
             self._current_stdout.append(PrintingStringIO())
         # And do the patches
         self._start_patches(
-            patch.dict('sys.modules', overridden_modules),
-            patch('sys.stdout', self._current_stdout[-1]),
-            patch('time.sleep', return_value=None),
+            # On the module objects themselves: looking 'sys' or 'time' up by
+            # name would find the instructor's replacement if they are blocked
+            patch.dict(sys.modules, overridden_modules),
+            patch.object(sys, 'stdout', self._current_stdout[-1]),
+            patch.object(time, 'sleep', return_value=None),
         )
 
     def _stop_mocking(self, context: SandboxContext):
